@@ -196,6 +196,13 @@ Theorem metadata_pattern_hooks_iff_value_not_none : forall w ts x,
 Proof. exact metadata_hooks_iff_not_none. Qed.
 Print Assumptions metadata_pattern_hooks_iff_value_not_none.
 
+(* patterns that compare equal (ObserverGraph.__eq__) hook the same (object, trait) pairs on every heap, so removal by
+   an equal pattern - another spelling of the text - addresses exactly what the registration hooked *)
+Theorem equal_patterns_hook_the_same : forall g1 g2, list_eqb graph_eqb g1 g2 = true ->
+  forall h o x, In x (flat_map (hook_graph h o) g1) <-> In x (flat_map (hook_graph h o) g2).
+Proof. exact equal_patterns_hooks. Qed.
+Print Assumptions equal_patterns_hook_the_same.
+
 Theorem expression_hooks_meaning : forall e gs, create_graphs e [] = Some gs ->
   forall h o x, In x (flat_map (hook_graph h o) gs) <-> In x (flat_map (hook_path h o) (paths e)).
 Proof. exact expr_hooks. Qed.
